@@ -56,7 +56,41 @@ func dataset() sl.Op {
 	return op
 }
 
-func symbols() *sl.Symbols { return sl.NewSymbols(dataset()) }
+// bigData: 300 points on a line (pairwise distinct distances from any query on
+// the line), so that composite queries merge far more ranked results than any
+// preallocation or batching hint inside the merge.
+func bigData() sl.Op {
+	op := sl.Op{Name: "bigdata", Kind: "ins"}
+	for i := 0; i < 300; i++ {
+		op.Ids = append(op.Ids, 1000+i)
+		d := sl.Doc{"flat": []float32{float32(i), float32(i) + 1}, "vec": []float32{float32(i%20) + 0.25*float32(i/20), float32(i / 20)}, "a": int64(i), "cat": fmt.Sprintf("c%d", i%3)}
+		if i%2 == 0 {
+			d["txt"] = fmt.Sprintf("quick w%d", i%5)
+		}
+		op.Docs = append(op.Docs, d)
+	}
+	return op
+}
+
+// bigTrees: composites whose sub-queries bring in up to 75 ranked results each
+// (more than 128 distinct ones in total), with points found again by a later sub-query.
+func bigTrees() []models.Query {
+	flat := func(x float32, limit int, w *float32) models.Query {
+		return models.Query{Property: "flat", VectorFlat: &models.SearchVectorFlatOptions{Vector: []float32{x, x + 1}, Operator: models.OperatorNear, Limit: limit, Weight: w}}
+	}
+	rng := func(lo, hi int64) models.Query {
+		return models.Query{Property: "a", Integer: &models.SearchIntegerOptions{Value: lo, EndValue: hi, Operator: models.OperatorInRange}}
+	}
+	txt := models.Query{Property: "txt", Text: &models.SearchTextOptions{Value: "w1 w3", Operator: models.OperatorContainsAny, Limit: 75, Weight: f32(2)}}
+	return []models.Query{
+		{Property: "_or", Or: []models.Query{flat(0.1, 75, nil), flat(299.2, 75, nil), flat(0.1, 20, f32(0.5))}},
+		{Property: "_or", Or: []models.Query{flat(0.1, 75, nil), flat(150.3, 75, f32(-1)), flat(60.2, 75, f32(0.5)), txt}},
+		{Property: "_and", And: []models.Query{{Property: "_or", Or: []models.Query{flat(0.1, 75, nil), flat(100.4, 75, nil), flat(40.3, 75, f32(2))}}, rng(10, 260)}},
+		{Property: "_or", Or: []models.Query{txt, flat(10.1, 75, nil), flat(200.6, 75, nil), rng(0, 299)}},
+	}
+}
+
+func symbols() *sl.Symbols { return sl.NewSymbols(dataset(), bigData()) }
 
 func f32(v float32) *float32 { return &v }
 
@@ -561,6 +595,13 @@ func factory(raw json.RawMessage) (seqx.System, error) {
 	return &sl.ShardSystem{In: in, M: sl.NewModel(c.Inst.Schema, in.Cfg.MaxPointSize), Syms: symbols(),
 		Battery: func(s *sl.ShardSystem) {
 			env := envs(s.In)
+			if c.Of == 0 {
+				// the 300-point data set: a few large composites, and paging / select on them
+				for _, q := range bigTrees() {
+					checkTree(&s.Obs, s.In, s.M, q, env)
+				}
+				return
+			}
 			n := 0
 			for _, w := range weightSets() {
 				ts := trees(leaves(w))
@@ -608,7 +649,7 @@ func scalarSelect(o *sl.Obs, in *sl.Inst, m *sl.Model) {
 }
 
 func master(cfg *harness.Config, rep *harness.Report) {
-	rep.Rule = "fixed 8-point data set (distinct distances, points lacking fields, a field that is int / string / float / absent, a field that is scalar in one point and a map in another); all _and/_or trees with 1-3 children and all two-level trees over a 7-leaf pool (graph vector, flat vector, two text, string filter, integer filter, _id) x 4 weight assignments (nil / positive / negative / an explicit zero on each kind of ranking leaf): result set = set algebra of the sub-results, hybrid = sum of weighted contributions, ranked first highest hybrid first, filter-only after; on a fixed sample of trees and all leaves: 11 select lists x 17 sort lists (asc/desc, every direction pattern over two and three keys with ties on the leading keys, nested, missing, mixed-type, 10 keys) with DecodedData = exactly the selected stored values and adjacent-pair sortedness, and offset {0,1,2,n-1,n,n+3} x limit {1,2,100} = contiguous slice of the full order (compared by order keys)"
+	rep.Rule = "a 300-point data set with four composites that merge up to 225 ranked results (sub-query limits of 75, points found again by later sub-queries, mixed with text and a filter); fixed 8-point data set (distinct distances, points lacking fields, a field that is int / string / float / absent, a field that is scalar in one point and a map in another); all _and/_or trees with 1-3 children and all two-level trees over a 7-leaf pool (graph vector, flat vector, two text, string filter, integer filter, _id) x 4 weight assignments (nil / positive / negative / an explicit zero on each kind of ranking leaf): result set = set algebra of the sub-results, hybrid = sum of weighted contributions, ranked first highest hybrid first, filter-only after; on a fixed sample of trees and all leaves: 11 select lists x 17 sort lists (asc/desc, every direction pattern over two and three keys with ties on the leading keys, nested, missing, mixed-type, 10 keys) with DecodedData = exactly the selected stored values and adjacent-pair sortedness, and offset {0,1,2,n-1,n,n+3} x limit {1,2,100} = contiguous slice of the full order (compared by order keys)"
 	rep.Assumptions = []string{"sorting is defined on the selected data (sort keys must be selected or '*')", "leaf limits are cut where no distance tie exists; trees whose reference is ambiguous are skipped and counted", "ties in the final order may be resolved either way"}
 	p := pool.New(pool.Options{CPUsPerWorker: 2, JobTimeout: 300 * time.Second})
 	syms := symbols()
@@ -628,8 +669,11 @@ func master(cfg *harness.Config, rep *harness.Report) {
 	}
 	for _, be := range []string{"bbolt", "mem"} {
 		for part := 0; part < parts; part++ {
-			specs = append(specs, seqx.Spec{Name: fmt.Sprintf("%s/part%d", be, part), Cfg: cfgT{sl.InstCfg{Backend: be, CacheSize: -1, Schema: schema()}, part, parts, every}, Starts: [][]any{syms.Refs("data")}, Depth: 0})
+			specs = append(specs, seqx.Spec{Name: fmt.Sprintf("%s/part%d", be, part), Cfg: cfgT{Inst: sl.InstCfg{Backend: be, CacheSize: -1, Schema: schema()}, Part: part, Of: parts, Every: every}, Starts: [][]any{syms.Refs("data")}, Depth: 0})
 		}
+	}
+	for _, be := range []string{"bbolt", "mem"} {
+		specs = append(specs, seqx.Spec{Name: be + "/300-points", Cfg: cfgT{Inst: sl.InstCfg{Backend: be, CacheSize: -1, Schema: schema()}}, Starts: [][]any{syms.Refs("bigdata")}, Depth: 0})
 	}
 	seqx.Explore(cfg, rep, p, specs)
 }
